@@ -376,7 +376,7 @@ fn build(ch: &mut Chooser, cfg: &GCfg) -> Option<Program> {
 		}
 	}
 	let defs: Vec<Def> = b.defs.into_iter().collect::<Option<Vec<_>>>()?;
-	Some(Program { defs, lifetime: false, ns_attr: Vec::new() })
+	Some(Program { defs, lifetime: false, ns_attr: Vec::new(), raw: Vec::new() })
 }
 
 pub struct Enumerated {
@@ -445,7 +445,7 @@ fn nm(i: usize) -> Ty {
 	Ty::Named(i)
 }
 fn prog(defs: Vec<Def>) -> Program {
-	Program { defs, lifetime: false, ns_attr: Vec::new() }
+	Program { defs, lifetime: false, ns_attr: Vec::new(), raw: Vec::new() }
 }
 
 pub fn sweeps(thorough: bool) -> Vec<(Program, String)> {
@@ -490,8 +490,8 @@ pub fn sweeps(thorough: bool) -> Vec<(Program, String)> {
 		add(prog(vec![Def::Union { variants: vec![pl(ptr(p, nm(1))), pl(ptr(p, i32_()))], unit_at: Some(0) }, s2()]), "pointer payloads in union variants");
 		add(prog(vec![st(vec![pl(ptr(p, ptr(Ptr::Box, nm(1)))), pl(nm(1))]), s2()]), "pointer to pointer, shared record");
 	}
-	add(Program { defs: vec![st(vec![pl(Ty::BStr), FieldTy::BBytes, pl(opt(Ty::BStr)), pl(vec_(Ty::BStr))])], lifetime: true, ns_attr: Vec::new() }, "borrowed &str / &[u8] fields");
-	add(Program { defs: vec![st(vec![pl(bmap(Ty::BStr)), pl(nm(1))]), s2()], lifetime: true, ns_attr: Vec::new() }, "borrowed &str in map next to a record");
+	add(Program { defs: vec![st(vec![pl(Ty::BStr), FieldTy::BBytes, pl(opt(Ty::BStr)), pl(vec_(Ty::BStr))])], lifetime: true, ns_attr: Vec::new(), raw: Vec::new() }, "borrowed &str / &[u8] fields");
+	add(Program { defs: vec![st(vec![pl(bmap(Ty::BStr)), pl(nm(1))]), s2()], lifetime: true, ns_attr: Vec::new(), raw: Vec::new() }, "borrowed &str in map next to a record");
 
 	// S3: maps
 	for mk in [hmap as fn(Ty) -> Ty, bmap as fn(Ty) -> Ty] {
@@ -761,6 +761,50 @@ pub fn sweeps(thorough: bool) -> Vec<(Program, String)> {
 		add(with_ns(prog(vec![st(vec![pl(e(i32_())), pl(e(str_())), pl(e(nm(2))), pl(bmap(e(lf(Leaf::Bool))))]), t_only(), s2()]), 1, ns), &format!("generic enum of T-dependent variants only: at i32, String, a record and bool, {tag}"));
 	}
 	add(prog(vec![st(vec![pl(Ty::Gen(1, vec![i32_()])), pl(Ty::Gen(1, vec![lf(Leaf::I64)]))]), Def::Union { variants: vec![pl(str_()), FieldTy::Param], unit_at: None }]), "generic enum of T-dependent variants only: E<T> { String(String), O(T) } at i32 and i64");
+
+	// S12: raw identifiers (`r#type`): the schema / serde name is the identifier without `r#`
+	let with_raw = |mut p: Program, raw: Vec<RawName>| {
+		p.raw = raw;
+		p
+	};
+	let kw = |s: &str| s.to_owned();
+	// (a) unit-only enums
+	for (what, raws) in [
+		("one raw symbol (r#type, B)", vec![RawName::Symbol(1, 0, kw("type"))]),
+		("two raw symbols (r#enum, r#match)", vec![RawName::Symbol(1, 0, kw("enum")), RawName::Symbol(1, 1, kw("match"))]),
+		("raw symbol last (A, B, r#struct)", vec![RawName::Symbol(1, 2, kw("struct"))]),
+	] {
+		let n = if what.contains("last") { 3 } else { 2 };
+		let root_raws: Vec<RawName> = raws.iter().map(|r| if let RawName::Symbol(_, k, w) = r { RawName::Symbol(0, *k, w.clone()) } else { r.clone() }).collect();
+		add(with_raw(prog(vec![Def::UnitEnum { symbols: n }]), root_raws), &format!("raw identifier: unit-only enum with {what}, alone"));
+		add(with_raw(prog(vec![st(vec![pl(nm(1)), pl(opt(nm(1))), pl(vec_(nm(1)))]), Def::UnitEnum { symbols: n }]), raws.clone()), &format!("raw identifier: unit-only enum with {what}, in a field, Option and Vec"));
+		add(with_raw(prog(vec![Def::Union { variants: vec![pl(nm(1)), pl(str_())], unit_at: Some(2) }, Def::UnitEnum { symbols: n }]), raws.clone()), &format!("raw identifier: unit-only enum with {what}, as union variant"));
+	}
+	// (b) union enums with raw-identifier variant names (one of them owning a fixed named after it)
+	let raw_union = || Def::Union { variants: vec![pl(i32_()), FieldTy::Fixed(4), pl(str_())], unit_at: Some(3) };
+	for ns in [None, Some("ns1"), Some("")] {
+		let tag = ns.map_or("no namespace attribute".to_owned(), |n| format!("namespace = \"{n}\""));
+		add(with_ns(with_raw(prog(vec![raw_union()]), vec![RawName::Variant(0, 0, kw("type")), RawName::Variant(0, 1, kw("match"))]), 0, ns), &format!("raw identifier: union enum variants r#type(i32), r#match([u8; 4]) as root, {tag}"));
+		add(
+			with_ns(with_raw(prog(vec![st(vec![pl(nm(1)), pl(vec_(nm(1)))]), raw_union()]), vec![RawName::Variant(1, 0, kw("type")), RawName::Variant(1, 1, kw("match")), RawName::Variant(1, 3, kw("enum"))]), 1, ns),
+			&format!("raw identifier: union enum variants r#type(i32), r#match([u8; 4]), unit r#enum, nested and shared, {tag}"),
+		);
+		add(with_ns(with_raw(prog(vec![raw_union()]), vec![RawName::Type(0, kw("enum")), RawName::Variant(0, 1, kw("match"))]), 0, ns), &format!("raw identifier: union enum named r#enum with variant r#match([u8; 4]), {tag}"));
+		// (c) + (d) type names
+		add(with_ns(with_raw(prog(vec![st(vec![pl(i32_()), pl(str_())])]), vec![RawName::Type(0, kw("type"))]), 0, ns), &format!("raw identifier: type names: struct r#type as root, {tag}"));
+		add(with_ns(with_raw(prog(vec![st(vec![pl(nm(1)), pl(vec_(nm(1))), pl(opt(nm(1)))]), st(vec![pl(i32_()), FieldTy::Fixed(4), dur()])]), vec![RawName::Type(1, kw("type"))]), 1, ns), &format!("raw identifier: type names: struct r#type owning fixed types, nested and shared, {tag}"));
+		add(with_ns(with_raw(prog(vec![Def::Union { variants: vec![pl(nm(1)), pl(i32_())], unit_at: Some(0) }, st(vec![pl(i32_())])]), vec![RawName::Type(1, kw("match"))]), 1, ns), &format!("raw identifier: type names: struct r#match as union variant, {tag}"));
+		add(with_ns(with_raw(prog(vec![Def::Newtype { field: FieldTy::Fixed(4) }]), vec![RawName::Type(0, kw("struct"))]), 0, ns), &format!("raw identifier: type names: newtype struct r#struct([u8; 4]) as root, {tag}"));
+		add(with_ns(with_raw(prog(vec![st(vec![pl(nm(1)), pl(nm(2))]), Def::Newtype { field: FieldTy::Fixed(4) }, Def::Newtype { field: pl(i32_()) }]), vec![RawName::Type(1, kw("struct")), RawName::Type(2, kw("type"))]), 1, ns), &format!("raw identifier: type names: newtype structs r#struct([u8; 4]) and r#type(i32) as fields, {tag}"));
+		add(with_ns(with_raw(prog(vec![st(vec![pl(nm(1)), pl(vec_(nm(1)))]), Def::UnitEnum { symbols: 2 }]), vec![RawName::Type(1, kw("enum"))]), 1, ns), &format!("raw identifier: type names: unit-only enum r#enum {{ A, B }}, {tag}"));
+	}
+	let named_raw = |name: Option<&str>, ns: Option<&str>| Def::Struct { fields: vec![pl(i32_()), FieldTy::Fixed(4)], ns: ns.map(|s| s.to_owned()), name: name.map(|s| s.to_owned()), module: None, ident: None };
+	for (name, ns) in [(Some("Other"), None), (Some("Other"), Some("x.y")), (Some("Other"), Some(""))] {
+		add(with_raw(prog(vec![st(vec![pl(nm(1)), pl(vec_(nm(1)))]), named_raw(name, ns)]), vec![RawName::Type(1, kw("type")), RawName::Field(1, 0, kw("match"))]), &format!("raw identifier: type names: struct r#type with name = Other, namespace {ns:?}, raw field"));
+	}
+	// raw field names (the crate's own test covers these: control)
+	add(with_raw(prog(vec![st(vec![pl(i32_()), pl(str_()), FieldTy::Fixed(4), dur()])]), vec![RawName::Field(0, 0, kw("type")), RawName::Field(0, 1, kw("match")), RawName::Field(0, 3, kw("enum"))]), "raw identifier: field names r#type, r#match, and r#enum owning a duration fixed");
+	add(with_raw(prog(vec![st(vec![pl(nm(1)), pl(opt(nm(1)))]), st(vec![pl(i32_()), decf()])]), vec![RawName::Field(1, 0, kw("type")), RawName::Field(1, 1, kw("struct")), RawName::Field(0, 0, kw("fn"))]), "raw identifier: field names in nested records, one owning a decimal fixed");
 
 	// S8: recursion
 	let list = |p: Ptr| st(vec![pl(lf(Leaf::I64)), pl(opt(ptr(p, nm(0))))]);
